@@ -93,7 +93,7 @@ func renderSecuritySpec(o secSpecOpts) string {
 func genSecurityFamily(c *Ctx, filter func(string) bool) {
 	n := 40
 	if c.Tier == "thorough" {
-		n = 240
+		n = 100
 	}
 	rng := rand.New(rand.NewSource(c.Seed*104729 + 5))
 	type cfg struct {
